@@ -39,7 +39,7 @@ private:
     /**
      * The size of the array.
      */
-    uint16_t m_size;
+    size_t m_size;
 
 public:
     /**
@@ -48,7 +48,7 @@ public:
      * @param data  The array that the bytecode store wraps.
      * @param size  The size of the array.
      */
-    ArrayBytecodeStore(const uint8_t* data, uint16_t size)
+    ArrayBytecodeStore(const uint8_t* data, size_t size)
         : m_data(data)
         , m_nextIndex(0)
         , m_size(size)
@@ -105,7 +105,7 @@ private:
         uint8_t result;
 
         assert(m_nextIndex >= 0);
-        if (m_nextIndex < m_size) {
+        if ((size_t)m_nextIndex < m_size) {
             result = m_data[m_nextIndex];
             m_nextIndex++;
         } else {
